@@ -491,7 +491,14 @@ struct WorkerProc {
 }
 
 fn spawn_worker(kind: &str, envs: &[(String, String)]) -> WorkerProc {
-    let exe = std::env::current_exe().unwrap_or_else(|e| die(&format!("current_exe: {e}")));
+    let exe = envs
+        .iter()
+        .find(|(k, _)| k == "MC_WORKER_EXE")
+        .map(|(_, v)| PathBuf::from(v))
+        .unwrap_or_else(|| std::env::current_exe().unwrap_or_else(|e| die(&format!("current_exe: {e}"))));
+    if !exe.exists() {
+        die(&format!("worker binary {} does not exist (run through ./check so that all variants are built)", exe.display()));
+    }
     let mut cmd = Command::new(exe);
     cmd.arg("--worker")
         .arg(kind)
@@ -557,6 +564,7 @@ pub struct PoolCfg {
     pub kind: String,
     pub timeout: Duration,
     pub workers: usize,
+    /// ("MC_WORKER_EXE", path) selects another build of this binary for the workers
     pub envs: Vec<(String, String)>,
 }
 
